@@ -30,7 +30,8 @@
  *
  * Purpose:   Set the <afp->inmap> for aligned FASTA format.
  *
- *            Text mode accepts any <isgraph()> character. 
+ *            Text mode accepts any <isgraph()> character except '>',
+ *            which starts a name/description line and is never a residue.
  *            Digital mode enforces the usual Easel alphabets.
  * 
  *            We skip spaces in input lines of aligned FASTA format;
@@ -53,6 +54,7 @@ esl_msafile_afa_SetInmap(ESL_MSAFILE *afp)
       for (sym = 1; sym < 128; sym++) 
 	afp->inmap[sym] = (isgraph(sym) ? sym : eslDSQ_ILLEGAL);
       afp->inmap[0]   = '?';
+      afp->inmap['>'] = eslDSQ_ILLEGAL; /* '>' starts a name/desc line; it is never a residue (the writer could start a line with it) */
     }
 
   afp->inmap[' '] = eslDSQ_IGNORED;
